@@ -15,6 +15,7 @@ require (
 require (
 	github.com/golang/glog v1.2.5 // indirect
 	github.com/google/go-cmp v0.7.0 // indirect
+	github.com/google/uuid v1.6.0 // indirect
 	github.com/kylelemons/godebug v1.1.0 // indirect
 	github.com/openconfig/gnmi v0.14.1 // indirect
 	github.com/openconfig/goyang v1.6.3 // indirect
@@ -23,6 +24,7 @@ require (
 	golang.org/x/sys v0.45.0 // indirect
 	golang.org/x/text v0.37.0 // indirect
 	google.golang.org/genproto/googleapis/rpc v0.0.0-20260319201613-d00831a3d3e7 // indirect
+	lukechampine.com/uint128 v1.3.0 // indirect
 )
 
 replace github.com/openconfig/gribigo => /repo
